@@ -10,6 +10,7 @@ pub assume_specification [Heap::get_at_index_mut] (h: &mut Heap, p: usize) -> (r
     ensures *r == heap_deref(*old(h), VCell::Ptr(p)),
             heap_deref(*final(h), VCell::Ptr(p)) == *final(r),
             heap_len(*final(h)) == heap_len(*old(h)),
+            forall|c: VCell| #[trigger] heap_live(*final(h), c) == heap_live(*old(h), c),
             forall|q: usize| q != p ==> #[trigger] heap_deref(*final(h), VCell::Ptr(q)) == heap_deref(*old(h), VCell::Ptr(q)),
             forall|c: VCell| !(c is Ptr) ==> #[trigger] heap_deref(*final(h), c) == heap_deref(*old(h), c);
 /// std: `impl<T> From<T> for T` is the identity, hence so is `Into<VCell> for VCell`
@@ -46,6 +47,28 @@ pub open spec fn spine_live(h: Heap, first: VCell) -> bool { forall|j: nat| (#[t
 /// ptrs are the car fields of the first ptrs.len() pairs of the list, in reverse order, and the list ends there
 pub open spec fn reversed_cars(h: Heap, first: VCell, ptrs: Seq<usize>) -> bool {
     &&& forall|i: int| 0 <= i < ptrs.len() ==> ((#[trigger] lcell(h, first, (ptrs.len() - 1 - i) as nat)) matches VCell::Pair(a, d) && a == ptrs[i])
+}
+/// a chain of allocated pairs: cell cells[i] holds Pair(cars[i], cells[i + 1]), the last one Pair(cars[n - 1], end); the cells are pairwise distinct
+pub open spec fn chain(h: Heap, cells: Seq<usize>, cars: Seq<usize>, end: usize) -> bool {
+    &&& cells.len() == cars.len()
+    &&& forall|i: int| 0 <= i < cells.len() ==> heap_live(h, VCell::Ptr(#[trigger] cells[i]))
+            && heap_deref(h, VCell::Ptr(cells[i])) == VCell::Pair(cars[i], if i + 1 < cells.len() { cells[i + 1] } else { end })
+    &&& forall|i: int, j: int| 0 <= i < j < cells.len() ==> cells[i] != cells[j]
+}
+/// cars are the car fields of the first cars.len() pairs of the list whose first cell is `first`, and the list ends in () right there
+pub open spec fn cars_of(h: Heap, first: VCell, cars: Seq<usize>) -> bool {
+    &&& forall|i: int| 0 <= i < cars.len() ==> ((#[trigger] lcell(h, first, i as nat)) matches VCell::Pair(a, d) && a == cars[i])
+    &&& lcell(h, first, cars.len()) is Nil
+}
+/// none of the cells was allocated in h
+pub open spec fn all_fresh(h: Heap, cells: Seq<usize>) -> bool { forall|i: int| 0 <= i < cells.len() ==> !heap_live(h, VCell::Ptr(#[trigger] cells[i])) }
+/// what clone_list answers: a fresh chain, as long as the argument, with the argument's very car fields, ending in a fresh () cell;
+/// head and tail point at its first and last pair
+pub open spec fn cloned(h0: Heap, h1: Heap, list: VCell, head: VCell, tl: VCell, cells: Seq<usize>, cars: Seq<usize>, nilp: usize) -> bool {
+    &&& cars.len() >= 1 && chain(h1, cells, cars, nilp) && cars_of(h0, list, cars)
+    &&& heap_live(h1, VCell::Ptr(nilp)) && heap_deref(h1, VCell::Ptr(nilp)) is Nil && !heap_live(h0, VCell::Ptr(nilp))
+    &&& head == VCell::Ptr(cells[0]) && tl == VCell::Ptr(cells[cells.len() - 1])
+    &&& all_fresh(h0, cells) && heap_ext(h0, h1)
 }
 /// the first j tails all are pairs (so the j-th tail exists)
 pub open spec fn has_tails(h: Heap, start: VCell, j: nat) -> bool { forall|i: nat| i < j ==> #[trigger] heap_deref(h, tail_ptr(h, start, i)) is Pair }
